@@ -868,6 +868,35 @@ func genC11(p *Pkg) (map[string]string, error) {
 	}
 	b.WriteString("]\n\n")
 
+	// call sequences: for the Str copy of each wrapper family and the four simple traps, the callees in source order
+	b.WriteString("/-- callees, in source order, of the proxyObject methods that wrap a trap (Str copy of each family) -/\n")
+	b.WriteString("def callSequences : List (String × List String) := [\n")
+	seqNames := []string{"proto", "setProto", "isExtensible", "preventExtensions", "defineOwnPropertyStr", "hasPropertyStr",
+		"getOwnPropStr", "getStr", "proxySetStr", "deleteStr", "proxyOwnKeys", "apply", "construct"}
+	for i, name := range seqNames {
+		fd := p.FuncDecl("proxyObject", name)
+		if fd == nil {
+			return nil, fmt.Errorf("method proxyObject.%s not found", name)
+		}
+		var calls []string
+		ast.Inspect(fd.Body, func(n ast.Node) bool {
+			if c, ok := n.(*ast.CallExpr); ok {
+				ft := t.text(c.Fun)
+				if strings.HasSuffix(ft, "NewTypeError") || ft == "panic" || strings.HasSuffix(ft, "String") || ft == "len" || ft == "append" || ft == "valueInt" || ft == "int64" || ft == "toLength" || ft == "nilSafe" {
+					return true
+				}
+				calls = append(calls, LeanString(ft))
+			}
+			return true
+		})
+		sep := ","
+		if i == len(seqNames)-1 {
+			sep = ""
+		}
+		fmt.Fprintf(&b, "  (%s, [%s])%s\n", LeanString(name), strings.Join(calls, ", "), sep)
+	}
+	b.WriteString("]\n\n")
+
 	// checkHandler itself: `if handler := p.handler; handler != nil { return handler }; panic(TypeError)`
 	ch := p.FuncDecl("proxyObject", "checkHandler")
 	rv := p.FuncDecl("proxyObject", "revoke")
